@@ -123,6 +123,67 @@ def decodeWire (bs : Bytes) : Option Decoded :=
     else if f.ty = 65 ∧ f.body = [] then some (.ping f.tag)
     else some (.other f.ty f.tag f.body)
 
+/-! ### the byte stream of a connection
+
+      stream = frame*          every frame: size:4, then exactly `size` bytes (type:1 tag:3 body)
+
+  The stream is split by the length prefixes alone; nothing else delimits frames. -/
+
+/-- the 4-byte big-endian length prefix at the front of a stream -/
+def u32? : Bytes → Option Nat
+  | a :: b :: c :: d :: _ => some (a * 16777216 + b * 65536 + c * 256 + d)
+  | _ => none
+
+/-- split a stream into the byte strings of its frames (prefix included).  `fuel` frames at
+    most; every frame consumes at least its 4 prefix bytes, so `bs.length` is enough -/
+def splitStreamFuel : Nat → Bytes → Option (List Bytes)
+  | 0, bs => if bs.isEmpty then some [] else none
+  | fuel + 1, bs =>
+    if bs.isEmpty then some []
+    else
+      match u32? bs with
+      | none => none                        -- 1 to 3 stray bytes
+      | some n =>
+        if n < 4 then none                  -- no room for type and tag
+        else
+          match take? (4 + n) bs with
+          | none => none                    -- the prefix announces more bytes than the stream holds
+          | some (chunk, rest) =>
+            match splitStreamFuel fuel rest with
+            | none => none
+            | some cs => some (chunk :: cs)
+
+def splitStream (bs : Bytes) : Option (List Bytes) := splitStreamFuel bs.length bs
+
+def parseFrames : List Bytes → Option (List Frame)
+  | [] => some []
+  | c :: cs =>
+    match parseFrame c, parseFrames cs with
+    | some f, some fs => some (f :: fs)
+    | _, _ => none
+
+/-- the whole stream as the list of frames it consists of; `none` if it is not a sequence of
+    length-prefixed frames -/
+def parseStream (bs : Bytes) : Option (List Frame) :=
+  match splitStream bs with
+  | none => none
+  | some cs => parseFrames cs
+
+/-- how far a stream is framed: (whole frames, bytes they take) — for the failure report -/
+def framedPrefixFuel : Nat → Bytes → Nat × Nat
+  | 0, _ => (0, 0)
+  | fuel + 1, bs =>
+    match u32? bs with
+    | none => (0, 0)
+    | some n =>
+      if n < 4 then (0, 0)
+      else
+        match take? (4 + n) bs with
+        | none => (0, 0)
+        | some (_, rest) =>
+          let r := framedPrefixFuel fuel rest
+          (r.1 + 1, r.2 + 4 + n)
+
 /-- signed 64-bit big-endian -/
 def i64? : Bytes → Option Int
   | [a, b, c, d, e, f, g, h] =>
@@ -205,6 +266,10 @@ inductive Op where
   | wire (tag : Nat) (m : Msg)             -- serializer sink → transport sink → connection
   | unmarshal (ty : Int) (b : Bytes)       -- `MessageSerializer.Unmarshal`
   | reply (b : Bytes)                      -- `ThriftMuxMessageSerializerSink.AsyncProcessResponse`
+  /-- messages put on the transport's send queue, in queue order (calls through the sink chain,
+      keep-alive pings, the transport's own Tdiscarded), while the connection takes the bytes
+      in pieces; observed: the reassembled byte stream of the connection -/
+  | stream (items : List (Nat × Msg))
   deriving Repr, DecidableEq
 
 inductive Obs where
@@ -228,6 +293,15 @@ def obsReply : Except Err Reply → Obs
   | .ok r => .reply r
   | .error e => .err e
 
+/-- the send loop is the only writer: the stream is the whole frames, in send-queue order (a
+    message whose serialization raises is never queued) -/
+def streamOf : List (Nat × Msg) → Bytes
+  | [] => []
+  | (tag, m) :: rest =>
+    (match wire tag m with
+     | .ok b => b
+     | .error _ => []) ++ streamOf rest
+
 def run : Op → Obs
   | .utf8 s => obsBytes (utf8E s)
   | .utf8d b => match utf8Decode b with | some s => .text s | none => .err .unicode
@@ -237,6 +311,7 @@ def run : Op → Obs
   | .wire tag m => obsBytes (wire tag m)
   | .unmarshal ty b => obsReply (unmarshal ty b)
   | .reply b => obsReply (processReply b)
+  | .stream items => .bytes (streamOf items)
 
 def step (_ : Cfg) (_ : St) (op : Op) : St × Obs := ((), run op)
 
@@ -315,6 +390,40 @@ def checkWire (idx : Nat) (tag : Nat) (m : Msg) : Obs → Verdict
   | .err e => .fail "no-frame" [V.ofNat idx, vErr e]
   | _ => .fail "bad-obs" [V.ofNat idx]
 
+/-- the first supplied message, not yet accounted for, that frame `f` is an exact encoding of
+    is struck off; `none` if there is no such message -/
+def takeMatch (idx : Nat) (f : Frame) : List (Nat × Msg) → Option (List (Nat × Msg))
+  | [] => none
+  | (t, m) :: rest =>
+    if f.tag = t ∧ (checkBody idx m f.ty f.body).isOk = true then some rest
+    else
+      match takeMatch idx f rest with
+      | some rest' => some ((t, m) :: rest')
+      | none => none
+
+/-- every frame of the stream is one of the supplied messages (under its tag), every supplied
+    message has its frame; no order is demanded -/
+def matchFrames (idx : Nat) : List Frame → List (Nat × Msg) → Verdict
+  | [], [] => .ok
+  | [], (t, _) :: rest => .fail "stream-frame-missing" [V.ofNat idx, V.ofNat t, V.ofNat (rest.length + 1)]
+  | f :: fs, items =>
+    match takeMatch idx f items with
+    | none => .fail "stream-frame-not-supplied" [V.ofNat idx, V.ofNat f.tag, .n f.ty, V.ofNat f.body.length]
+    | some items' => matchFrames idx fs items'
+
+/-- the byte stream of the connection must split, by its length prefixes, into frames -/
+def checkStream (idx : Nat) (items : List (Nat × Msg)) : Obs → Verdict
+  | .bytes b =>
+    match parseStream b with
+    | none =>
+      .fail "stream-not-framed" [V.ofNat idx, V.ofNat b.length, V.ofNat (framedPrefixFuel b.length b).1,
+        V.ofNat (framedPrefixFuel b.length b).2]
+    | some frames => matchFrames idx frames items
+  | .err e => .fail "no-frame" [V.ofNat idx, vErr e]
+  | _ => .fail "bad-obs" [V.ofNat idx]
+
+def itemOk (it : Nat × Msg) : Bool := it.2.inDomain && decide (it.1 < 16777216)
+
 /-- verdict for one (operation, observation).  The guards are the domain the property
     quantifies over; outside it nothing is demanded. -/
 def specObs (idx : Nat) (op : Op) (o : Obs) : Verdict :=
@@ -328,6 +437,7 @@ def specObs (idx : Nat) (op : Op) (o : Obs) : Verdict :=
     | none => .ok
   | .marshal m => if m.inDomain && m != .ping then checkMarshal idx m o else .ok
   | .wire tag m => if m.inDomain && decide (tag < 16777216) then checkWire idx tag m o else .ok
+  | .stream items => if items.all itemOk then checkStream idx items o else .ok
   -- the property demands nothing of these; the model still predicts them exactly
   | .utf8 _ => .ok
   | .utf8d _ => .ok
@@ -359,6 +469,10 @@ def decMsg : V → Option Msg
   | .a "ping" => some .ping
   | _ => none
 
+def decItem : V → Option (Nat × Msg)
+  | .l [tag, m] => do pure (← tag.nat?, ← decMsg m)
+  | _ => none
+
 def decOp : List V → Option Op
   | [.a "utf8", s] => do pure (.utf8 (← s.natList?))
   | [.a "utf8d", b] => do pure (.utf8d (← b.bytes?))
@@ -368,6 +482,7 @@ def decOp : List V → Option Op
   | [.a "wire", tag, m] => do pure (.wire (← tag.nat?) (← decMsg m))
   | [.a "unmarshal", .n ty, b] => do pure (.unmarshal ty (← b.bytes?))
   | [.a "reply", b] => do pure (.reply (← b.bytes?))
+  | [.a "stream", .l items] => do pure (.stream (← items.mapM decItem))
   | _ => none
 
 def decErr : V → Option Err
